@@ -405,8 +405,11 @@ def session_kill(sess):
     def go():
         xs = sess['xs']
 
+        r, w = os.pipe()
+
         def child():
             B = build(sess)
+            os.write(w, b'x')  # ready: the loop starts now
             i = 0
             while True:
                 x = xs[i % len(xs)]
@@ -417,9 +420,13 @@ def session_kill(sess):
         pid = os.fork()
         if pid == 0:
             try:
+                os.close(r)
                 child()
             finally:
                 os._exit(0)
+        os.close(w)
+        os.read(r, 1)
+        os.close(r)
         time.sleep(sess['delay'])
         os.kill(pid, signal.SIGKILL)
         os.waitpid(pid, 0)
